@@ -804,6 +804,14 @@ def pieces(fn):
             elif isinstance(s, ast.AugAssign) and isinstance(s.target, ast.Name) and s.target.id in env:
                 env = dict(env)
                 env[s.target.id] = ast.BinOp(left=env[s.target.id], op=s.op, right=subst(s.value, env))
+            elif isinstance(s, ast.If) and isinstance(s.test, ast.UnaryOp) and isinstance(s.test.op, ast.Not):
+                # `if not A: X else: Y` is `if A: Y else: X` - tests are recorded in their positive spelling
+                s2 = ast.If(test=s.test.operand, body=list(s.orelse) or [ast.Pass()], orelse=list(s.body))
+                ast.copy_location(s2, s)
+                walk([s2] + stmts[i + 1:], env, conds)
+                return
+            elif isinstance(s, ast.Pass):
+                continue
             elif isinstance(s, ast.If) and isinstance(s.test, ast.BoolOp):
                 # `if A and B: X else: Y` is `if A: (if B: X else: Y) else: Y`; `if A or B: X else: Y` is `if A: X else: (if B: X else: Y)` - one test per branch point
                 vals = s.test.values
